@@ -186,6 +186,8 @@ func valToJA(v M) *lorawan.JoinAcceptPayload {
 
 // valToPhy builds the Go frame.  bothB4 additionally sets the FCtrl flag that belongs to the other
 // direction (the Go struct has two names for wire bit 4).
+var emptySpelling int
+
 func valToPhy(v M, bothB4 bool) *lorawan.PHYPayload {
 	mt := num(v["mtype"])
 	p := &lorawan.PHYPayload{MHDR: lorawan.MHDR{MType: lorawan.MType(mt), Major: lorawan.Major(num(v["major"]))}}
@@ -211,6 +213,17 @@ func valToPhy(v M, bothB4 bool) *lorawan.PHYPayload {
 			mp.FPort = &x
 		}
 		mp.FRMPayload = valToItems(dir, v["frm"])
+		// "no items" has two Go spellings, nil and a non-nil slice of length 0 (what make / [:0] / a JSON [] give): every
+		// third frame built here uses the second one
+		emptySpelling++
+		if emptySpelling%3 == 0 {
+			if len(mp.FRMPayload) == 0 {
+				mp.FRMPayload = []lorawan.Payload{}
+			}
+			if len(mp.FHDR.FOpts) == 0 {
+				mp.FHDR.FOpts = make([]lorawan.Payload, 0, 4)
+			}
+		}
 		p.MACPayload = mp
 	case "joinreq":
 		jr := &lorawan.JoinRequestPayload{DevNonce: lorawan.DevNonce(num(v["devnonce"]))}
